@@ -171,7 +171,8 @@ PROPS = {
         lean_targets=["BB.Props.C14"],
         theorems=["BB.Props.C14.inv_step", "BB.Props.C14.bounded", "BB.Props.C14.exactly_once", "BB.Props.C14.queue_has_worker",
                   "BB.Props.C14.finish_own_job", "BB.Props.C14.wait_sound", "BB.Props.C14.queued_not_stuck", "BB.Props.C14.job_kept",
-                  "BB.Props.C14.mu_worker_step", "BB.Props.C14.queued_job_is_eventually_taken", "BB.Props.C14.demoRun_fair", "BB.Props.C14.fifo_observer_is_passive", "BB.Props.C14.jobs_taken_in_call_order", "BB.Props.C14.never_overtaken", "BB.Workers.fifo_inv"],
+                  "BB.Props.C14.mu_worker_step", "BB.Props.C14.queued_job_is_eventually_taken", "BB.Props.C14.demoRun_fair", "BB.Props.C14.fifo_observer_is_passive", "BB.Props.C14.jobs_taken_in_call_order", "BB.Props.C14.never_overtaken", "BB.Workers.fifo_inv",
+                  "BB.Props.C14.rinv_reach", "BB.Props.C14.worker_never_waits_for_the_caller", "BB.Props.C14.reply_layer_is_passive", "BB.Props.C14.call_returns_its_own_result_once", "BB.Props.C14.no_reply_is_lost"],
         corr=[dict(family="workers", quick=100, thorough=3000, mismatch_is_violation=True, no_shrink=True,
                    nontrivial=has("target_shrinks_queue_nonempty", "exit_with_queue", "parallel_jobs"),
                    rule="workers: 2-6 free-running callers x 3-8 calls with mixed/decreasing counts and PRNG-perturbed job functions on one real Workers; "
